@@ -9,3 +9,44 @@ RULE = ("harness c11: every flat-memory operation of C08 (normalise, lsh/rsh fam
 ASSUMPTIONS = ["operations not yet in the list (convolution, core-level operations) are covered by their own properties' checks"]
 def classify(record):
     return None
+
+
+def search(ctx, diffs):
+    """Model and implementation disagree on some records but C11's own oracle (frame + independence of the prior content)
+    holds on them: the clause "the column index arguments are honoured" is the operation's own statement, so evaluate the
+    owning property's spec-level oracle (C08 / C09 for the pair records, C05 / C07 for the pass-through ones) on the
+    implementation's output of the disagreeing records."""
+    import check
+    groups = {}
+    for d in diffs[:400]:
+        line = d["record"]
+        try:
+            code_s, ps, vs, outs = line.split("#", 3)
+            code = int(code_s)
+        except ValueError:
+            continue
+        if outs.startswith("PANIC"):
+            continue
+        if code >= 110000:
+            c = code - 110000
+            owner = "C08" if 8000 <= c < 9000 else "C09"
+            base = f"{c}#{ps}#{';'.join(vs.split(';')[:-1])}#{outs.split(';')[0]}"
+        else:
+            owner = "C05" if 5000 <= code < 6000 else "C07"
+            base = line
+        groups.setdefault(owner, []).append((base, line))
+    for owner, items in groups.items():
+        drv = check.build_driver(owner)
+        f = ctx.work / f"search_{owner}.txt"
+        f.write_text("\n".join(b for b, _ in items) + "\n")
+        for (n, c, o, extra) in ctx.drive(drv, f):
+            if o == 0:
+                base, line = items[n - 1]
+                return {"property": "C11", "kind": "oracle-failure",
+                        "what": f"model and implementation disagree on this record and {owner}'s spec-level statement of the operation "
+                                "(exact map of the SELECTED operand columns into the selected result column) is false on the implementation's "
+                                "output: the column index arguments are not honoured / the output is not the function of the inputs the "
+                                "operation defines",
+                        "records": [line.rsplit("#", 1)[0] + "#"], "observed": line, "owner_record": base,
+                        "replay_cmd": "python3 tools/check.py C11 --replay <this file>"}
+    return None
